@@ -729,7 +729,7 @@ def type_roundtrip_check(res, rnd, q):
 
 @_needs_driver()
 def stmt_family_correspondence(res, rnd, q):
-    """the statement family of Parse/StmtModel.v (twenty DDL statements, with the recover points of parseDDL / parseStatementInternal) under
+    """the statement family of Parse/StmtModel.v (twenty-four DDL statements, with the recover points of parseDDL / parseStatementInternal) under
     ParseDDL, ParseStatement and -- through the list loop of Parse/ListLoop.v -- ParseDDLs, ParseStatements, on the real lexer's tokens: number
     of errors and every returned node with every position, Bad nodes with their tokens included (the 'separated' flag of Bad-node tokens is
     projected away); inputs that leave the family are skipped and counted"""
